@@ -97,18 +97,27 @@ threefold rotoinversions, 9 mirrors, inversion, identity, 9 twofold, 8 threefold
 example : (geoHist[geoIdxOfArith 73]?).getD [] = [0, 6, 8, 9, 1, 1, 9, 8, 6, 0] := by decide
 
 /-- **(d)** The lattice letter of the Hall string is the `centering` field of the entry, and it is
-one of the conventional centrings of the Bravais class of the entry's arithmetic class. -/
+one of the conventional centrings of the Bravais class of the entry's arithmetic class
+(`allowedCenterings`: P for aP, mP, oP, tP, hP, cP; A, B, C, I for mC; A, B, C for oS; F; I; R or P
+for hR). -/
 theorem hall_centering : ∀ h : Nat, 1 ≤ h → h ≤ 530 →
-    ∃ (e : HallEntry) (hs : HallSymbol),
+    ∃ (e : HallEntry) (hs : HallSymbol) (a : ArithEntry),
       hallEntry h = some e ∧ HallSymbol.new e.hallSymbol = some hs ∧
-      Centering.ofString? e.centering = some hs.centering := by
+      Centering.ofString? e.centering = some hs.centering ∧
+      arithTable.toList[e.arithmeticNumber - 1]? = some a ∧ e.centering ∈ allowedCenterings a.bravaisClass := by
   intro h h1 h2
   obtain ⟨r, hs, f⟩ := hallRow_facts (hall_rows h h1 h2)
-  obtain ⟨e, he, hsym, hcen, _⟩ := hallRowIn_spec f.row
-  exact ⟨e, hs, he, hsym ▸ f.parse, hcen ▸ f.cent⟩
+  obtain ⟨e, he, hsym, hcen, _, _, _, _, _, _, hallow⟩ := hallRowIn_spec f.row
+  obtain ⟨_, _, a1, a2⟩ := hallEntry_ranges he
+  obtain ⟨a, fa⟩ := arithRow_facts (arith_rows e.arithmeticNumber a1 a2)
+  refine ⟨e, hs, a, he, hsym ▸ f.parse, hcen ▸ f.cent, fa.row, ?_⟩
+  have := f.centAllowed
+  rw [hallow, fa.bravaisName, hcen] at this
+  simpa using this
 
-example : ∃ (e : HallEntry) (hs : HallSymbol), hallEntry 450 = some e ∧
-    HallSymbol.new e.hallSymbol = some hs ∧ Centering.ofString? e.centering = some hs.centering :=
+example : ∃ (e : HallEntry) (hs : HallSymbol) (a : ArithEntry), hallEntry 450 = some e ∧
+    HallSymbol.new e.hallSymbol = some hs ∧ Centering.ofString? e.centering = some hs.centering ∧
+    arithTable.toList[e.arithmeticNumber - 1]? = some a ∧ e.centering ∈ allowedCenterings a.bravaisClass :=
   hall_centering 450 (by decide) (by decide)
 
 /-- The rows of the arithmetic-class table are numbered 1..73, their geometric class is one of the
@@ -116,11 +125,11 @@ example : ∃ (e : HallEntry) (hs : HallSymbol), hallEntry 450 = some e ∧
 assigns to class `k` is an entry of arithmetic class `k`. -/
 theorem arith_table_consistent : ∀ k : Nat, 1 ≤ k → k ≤ 73 →
     ∃ a : ArithEntry, arithTable.toList[k - 1]? = some a ∧ a.arithmeticNumber = k ∧
-      geoNames[geoIdxOfArith k]? = some a.geometricClass ∧
+      geoNames[geoIdxOfArith k]? = some a.geometricClass ∧ a.bravaisClass ∈ bravaisNames ∧
       (hallEntry ((arithRepHall[k - 1]?).getD 0)).map (·.arithmeticNumber) = some k := by
   intro k h1 h2
   obtain ⟨a, f⟩ := arithRow_facts (arith_rows k h1 h2)
-  exact ⟨a, f.row, f.number, f.geoName, f.repArith⟩
+  exact ⟨a, f.row, f.number, f.geoName, List.mem_of_getElem? f.bravaisName, f.repArith⟩
 
 example : ∃ a : ArithEntry, arithTable.toList[72]? = some a ∧ a.arithmeticNumber = 73 :=
   (arith_table_consistent 73 (by decide) (by decide)).imp fun _ h => ⟨h.1, h.2.1⟩
@@ -215,7 +224,7 @@ theorem hall_settings_conjugate : ∀ h : Nat, 1 ≤ h → h ≤ 530 →
   intro h h1 h2
   have hok := hall_rows h h1 h2
   obtain ⟨r, hs, f⟩ := hallRow_facts hok
-  obtain ⟨e, he, _, _, _, hprim, _, _, _, hfirst⟩ := hallRowIn_spec f.row
+  obtain ⟨e, he, _, _, _, hprim, _, _, _, hfirst, _⟩ := hallRowIn_spec f.row
   -- the first setting is itself a row 1..530 of the table, so its certificate list is the model's list
   have hset := f.setting
   rw [hfirst] at hset
